@@ -13,6 +13,9 @@ import (
 	"github.com/tyler-sommer/stick/parse"
 )
 
+// maxRangeSize is the largest number of elements the range operator ".." will produce.
+const maxRangeSize = 10000000
+
 // Type state represents the internal state of a template execution.
 //
 // state implements the exported Context interface.
@@ -689,9 +692,22 @@ func (s *state) evalExpr(exp parse.Expr) (v Value, e error) {
 			return CoerceNumber(left) < CoerceNumber(right), nil
 		case parse.OpBinaryRange:
 			l, r := CoerceNumber(left), CoerceNumber(right)
-			res := make([]float64, uint(math.Ceil(r-l))+1)
-			for i, k := 0, l; k <= r; i, k = i+1, k+1 {
-				res[i] = k
+			if math.IsNaN(l) || math.IsInf(l, 0) || math.IsNaN(r) || math.IsInf(r, 0) {
+				return nil, errors.New("range bounds must be finite numbers")
+			}
+			// Like Twig's range: count up or down in steps of one, starting at the
+			// left bound, without going past the right bound.
+			step := 1.0
+			if r < l {
+				step = -1.0
+			}
+			n := math.Floor(math.Abs(r-l)) + 1
+			if n > maxRangeSize {
+				return nil, fmt.Errorf("range %v..%v has more than %d elements", l, r, int(maxRangeSize))
+			}
+			res := make([]float64, int(n))
+			for i := range res {
+				res[i] = l + float64(i)*step
 			}
 			return res, nil
 		case parse.OpBinaryBitwiseAnd:
